@@ -423,6 +423,10 @@ class Gen(kgen.Gen):
         if p == "tetvalid":
             self.full_mode()
             if r.chance(2, 3): self.create_props(1 + r.below(3))
+            # a live bool property on halfedges and on halffaces (collapse_edge swaps every half-entity of a rebuilt tet,
+            # mostly with itself: a swap(i,i) that disturbs a bool shows in the P lines and in the token oracle)
+            self.do("PCreate HE 0 bool"); self.ptypes["HE"].append("bool")
+            self.do("PCreate HF 1 bool"); self.ptypes["HF"].append("bool")
             self.tet_build()
             self.fill_props()
             self.do("QTetAll")
@@ -435,6 +439,23 @@ class Gen(kgen.Gen):
             self.tet_build()
             if r.chance(1, 2): self.debris()
             self.loop(nops, self.step_tetmal)
+        elif p == "tetprops":
+            # property arrays of every value type on all seven kinds, then collapses in the chosen deletion mode
+            self.full_mode()
+            types = ["int", "bool", "string", "double", "vec3d", "vh"]
+            for k in kgen.KINDS:
+                for t in (["int", "bool"] if k in ("HE", "HF") else [r.pick(types)]):
+                    self.do("PCreate %s %d %s" % (k, r.below(2) if t == "bool" else r.below(7), t))
+                    self.ptypes[k].append(t)
+            self.tet_build()
+            if r.chance(1, 2): self.tet_ball()
+            self.fill_props()
+            def step():
+                c = r.below(8)
+                if c < 6: self.collapse_some()
+                elif c == 6: self.set_props(6)
+                else: self.risky(self.do, "GC")
+            self.loop(nops, step)
         elif p == "hexvalid":
             self.full_mode()
             if r.chance(1, 2): self.create_props(1 + r.below(2))
@@ -491,7 +512,7 @@ def stratified_perms(rng, n):
         if p not in seen: seen.add(p); out.append(p)
     return out[:n]
 
-KIND = {"tetvalid": "tet", "tetmal": "tet", "hexvalid": "hex", "hexmal": "hex", "hexperm": "hex"}
+KIND = {"tetvalid": "tet", "tetmal": "tet", "tetprops": "tet", "hexvalid": "hex", "hexmal": "hex", "hexperm": "hex"}
 
 def generate(driver, seed, count, profiles, nops, out_path, prefix="g", perm_count=60):
     sess = Session(driver)
